@@ -1,4 +1,5 @@
 import PMH.Model.Basic
+import PMH.Model.Hashers
 /-!
 # Model of `OptDensMinHash` / `RevOptDensMinHash` (`src/densminhash.rs`)
 
@@ -25,6 +26,9 @@ namespace Dens
 variable {F G R : Type} [LT F] [DecidableLT F]
 
 def u64Max : Nat := 18446744073709551615
+
+/-- `get_hsketch_u32` : every stored 64-bit hash through `murmur3_32(to_ne_bytes, seed 127)` (`Hashers.murmurOfU64`) -/
+def u32View (s : Dens F) : List UInt32 := s.values.toList.map (fun v => Hashers.murmurOfU64 v.toUInt64)
 
 def new (large : F) (m : Nat) : Dens F :=
   { hsketch := Array.replicate m large, values := Array.replicate m u64Max, init := Array.replicate m false, nbEmpty := m }
